@@ -40,6 +40,8 @@ TEMPLATES = ["{a} + {b}", "{a} + [4]", "{a} + \"4]\"", "[*{a}, 4]", "[*{a}, *{b}
              # one value used as the chain argument of two chains whose results are both still referenced
              "keep({b}@({a}){{|x| x}}) + keep({b}@({a}){{|x| [x]}})", "keep({b}@({a})S) + keep({b}@({a})repr)", "[keep([1]@({a}){{|x| x}}), keep([2, 3]@({a}){{|x| x}}), keep([4]=@({a}){{|x| x}})]",
              "[keep({a}.patch(v: 0)), keep({b}.patch(v: 0)), [{a}, {b}]@patch(v: 0)]",
+             # literals made only of three or more ** operands, one of them empty
+             "{{**{a}, **{{}}, **{{zz9: 1}}}}", "{{**{a}, **{{}}, **{b}}}", "{{**{{}}, **{a}, **{b}, **{{zz9: 1}}}}", "%{{**{a}, **%{{}}, **%{{[9]: 1, 8: 2}}}}", "[*{a}, *[], *{b}, *[7]]",
              "%{{[1]: 0, **{a}}}", "%{{[2]: 0, [9]: 1, **{a}}}", "%{{**{b}, [2]: 0, **{a}}}", "{{y: 0, **{a}}}", "[*{a}][1:]"]
 
 
